@@ -248,6 +248,53 @@ def lin_enumerate(max_size, max_vars, forms):
     return out
 
 
+def lin_family_loopjump():
+    """Exhaustive family: a resource declared INSIDE a loop body, an if / else-if / if-let one of whose branches
+    jumps (break / continue) with the resource alive or consumed, and the consumption after the if.
+    loop kind x resource kind x jump kind x jumping branch x consumed-before-jump x else rendering x consumption form.
+    (5-7 statements: beyond the size bound of the plain enumeration, but a path shape the checker handles with
+    dedicated bookkeeping: jump offsets merged at the if/else join.)"""
+    out = []
+    for loop in ("while", "for"):
+        for kind in "roa":
+            for jump in ("break", "continue"):
+                for pre in (False, True):
+                    jb = ([{"t": "destroy", "x": "v0", "k": kind}] if pre else []) + [{"t": jump}]
+                    for shape in ("then", "else", "elseif-then", "elseif-else", "iflet-then", "iflet-else"):
+                        for noelse in ((False, True) if shape == "then" else (False,)):
+                            for after in ("destroy", "consume", "move", "use-destroy", "none"):
+                                body = [{"t": "decl", "x": "v0", "k": kind}]
+                                if shape == "then":
+                                    body.append({"t": "if", "then": jb, "else": [], "noelse": noelse})
+                                elif shape == "else":
+                                    body.append({"t": "if", "then": [], "else": jb, "noelse": False})
+                                elif shape == "elseif-then":
+                                    body.append({"t": "if", "then": [], "noelse": False,
+                                                 "else": [{"t": "if", "then": jb, "else": [], "noelse": False}]})
+                                elif shape == "elseif-else":
+                                    body.append({"t": "if", "then": [], "noelse": False,
+                                                 "else": [{"t": "if", "then": [], "else": jb, "noelse": False}]})
+                                else:
+                                    body.append({"t": "decl", "x": "v1", "k": "o"})
+                                    bound = [{"t": "destroy", "x": "v2", "k": "r"}]
+                                    if shape == "iflet-then":
+                                        body.append({"t": "iflet", "x": "v1", "y": "v2", "then": bound + jb, "else": [], "noelse": False})
+                                    else:
+                                        body.append({"t": "iflet", "x": "v1", "y": "v2", "then": bound, "else": jb, "noelse": False})
+                                if after == "destroy":
+                                    body.append({"t": "destroy", "x": "v0", "k": kind})
+                                elif after == "consume":
+                                    body.append({"t": "consume", "x": "v0", "k": kind})
+                                elif after == "move":
+                                    body += [{"t": "move", "x": "v9", "k": kind, "form": "var", "ys": ["v0"]},
+                                             {"t": "destroy", "x": "v9", "k": kind}]
+                                elif after == "use-destroy":
+                                    body += [{"t": "use", "x": "v0", "k": kind, "form": "call"},
+                                             {"t": "destroy", "x": "v0", "k": kind}]
+                                out.append(copy.deepcopy([{"t": loop, "body": body}]))
+    return out
+
+
 def _vary(body, rng):
     """Semantics-preserving syntactic variation (same statement in the model, other checker code path)."""
     def f(s):
@@ -679,19 +726,20 @@ def check_C03(ctx):
         extra = lin_enumerate(6, 2, {"move"})
         nextra, nrand, batch = 40000, 90000, 20000
     nsys_exh = len(sysm)
+    family = lin_family_loopjump()
     seen = set(json.dumps(b, sort_keys=True) for b in sysm)
     extra = [b for b in extra if json.dumps(b, sort_keys=True) not in seen]
     rng.shuffle(extra)
     sysm += extra[:nextra]
-    sysm = [_vary(copy.deepcopy(b), rng) for b in sysm]
+    sysm = [_vary(copy.deepcopy(b), rng) for b in sysm] + family      # the family is rendered exactly as enumerated
     rnd, mix = lin_random(rng, nrand, 3, 4)
     bodies = [_fix_lets(b) for b in sysm + rnd]
     progs = [{"id": i + 1, "body": b} for i, b in enumerate(bodies)]
     for pr in progs[:len(sysm)]:
         if not lin_wellformed(pr):
             raise Infra("C03 enumerator produced an ill-formed program: %s" % json.dumps(pr))
-    ctx.log("programs: %d systematic (%d = every program up to the exhaustive bound) + %d random (%s)"
-            % (len(sysm), nsys_exh, len(rnd), mix))
+    ctx.log("programs: %d systematic (%d = every program up to the exhaustive bound, %d = in-loop declaration x branch jump family) + %d random (%s)"
+            % (len(sysm), nsys_exh, len(family), len(rnd), mix))
 
     # ---- pass 1: exact oracle (TLC) and real checker on every program, batch by batch
     batches = [progs[i:i + batch] for i in range(0, len(progs), batch)]
@@ -828,6 +876,7 @@ def check_C03(ctx):
         "traces_validated_against_impl": counted,
         "evaluations": len(progs),
         "programs_systematic": len(sysm), "programs_systematic_exhaustive_part": nsys_exh,
+        "programs_loop_jump_family": len(family),
         "programs_random": len(rnd), "random_mix": mix,
         "discarded_outside_fragment": noise, "discarded_kinds": noise_kinds,
         "agree_reject": agree_bad, "agree_accept": agree_ok, "disagreements": len(disagree),
